@@ -65,7 +65,7 @@ CLAIMED = {
     'C08': ('proof', 'Pairing logic of the real ModbusTransactionManager.execute for all four client framings (plus the UDP-style client): from any prior state '
             '(stale bytes in the framer, client state, transaction-id counter including the wrap, a reply slot left over from an earlier call) and a havoc-ed '
             'transport, the returned object is a ModbusIOException or a message the framer delivered during this call, handed over with an empty framer buffer, '
-            'carrying the request transaction id (TCP) / unit id (serial) and function code; an attempt that ends in silence closes the connection (a late reply cannot reach the next transaction). The retry loop is cut (any number of retries); _transact and the '
+            'carrying the request transaction id (TCP) / unit id (serial) and function code; an attempt that ends in silence closes the connection (a late reply cannot reach the next transaction). Every synchronous client constructor (base, TCP, TCP with a framer class, UDP, serial x framing) installs a DictTransactionManager bound to the client. The retry loop is cut (any number of retries); _transact and the '
             'framer are replaced by contracts that are themselves established on the real code by C08/transact.<kind> (frame conditions of _transact) and '
             'C08/filter.<kind> (every delivered message carries the wire unit id, passed the unit filter, and on TCP the wire transaction id; receive loops cut). '
             'Five known findings (reply transaction id never compared, function code never compared, unit 0/255 accepts any unit, socket error path, left-over reply slot).',
@@ -75,14 +75,14 @@ CLAIMED = {
     'C09': ('proof', 'Each of the seven execute/send pairs (sync TCP/serial/UDP, asyncio TCP/UDP, Twisted TCP/UDP) is proved against S-SERVE for an arbitrary '
             'request (ids, function code, outcome of request.execute: normal / exception / raises), arbitrary hosted-unit sets, single/multi mode, '
             'broadcast and ignore_missing_slaves flags: exactly one frame per accepted request, byte-identical to MBAP(tid, uid, fc or fc|0x80, payload) with '
-            'the ids echoed; nothing for broadcast, absent-unit-with-ignore, no-response messages; 0x0B for absent units; 04 for datastore failures. A well-formed request frame of any body length (none included) alone on the wire reaches execute() exactly once, for all four framers (C09/accepted.*).',
+            'the ids echoed; nothing for broadcast, absent-unit-with-ignore, no-response messages; 0x0B for absent units; 04 for datastore failures. A well-formed request frame of any body length (none included) alone on the wire reaches execute() exactly once, for all four framers (C09/accepted.*). Which responses are listen-only is decided on the real classes: Force Listen Only Mode yields a response that asks for silence, every other response class asks to be sent (C09/listen_only).',
             'Per-connection ordering ("in request order") rests on the framer calling the callback once per frame in order (C06) - assumed here. '
             'socket.send/transport.write atomic (external). Broadcast lemmas unroll the loop over hosted units (0..3 units, symbolic ids). One known finding (Twisted UDP ignores should_respond).',
             'contract-based deductive verification (pyvc VC generation from /repo AST + z3/cvc5)', 'DESIGN.md section 4 C09'),
     'C10': ('proof', 'Routing clauses of S-SERVE for all seven front-ends over arbitrary hosted-unit sets (symbolic map): executed exactly once and only against '
             'context[unit_id]; absent unit: nothing executed, silence or 0x0B; single mode: every id reaches the one context; broadcast: executed once on every '
             'hosted unit, no response (hosted sets of 0..3 units, ids symbolic - bounded in the NUMBER of units); the unit filter _validate_unit_id against '
-            'its specification; every serving loop hands the framer all hosted units (+0 under broadcast); default-constructed slave contexts share no storage (real constructor).',
+            'its specification; every serving loop hands the framer all hosted units (+0 under broadcast); default-constructed slave contexts share no storage (real constructor); every server constructor serves the context object it was given, an empty one included (ownership obligation on the constructors).',
             'Non-interference between units rests on execute() receiving only the addressed context object (proved) and contexts of distinct units being '
             'distinct objects (configuration assumption). One known finding (sync UDP handler never admits unit 0 for broadcast).',
             'contract-based deductive verification (pyvc VC generation from /repo AST + z3/cvc5)', 'DESIGN.md section 4 C10'),
@@ -90,7 +90,7 @@ CLAIMED = {
             'invariant, so all iterations) with the transport returning any bytes or raising and the framer raising ANY exception: no exception escapes, and '
             'after an exception the connection is closed or the framer reset; (b) execute() of all seven front-ends lets no exception escape and maps a '
             'datastore failure to exception 04; (c) Twisted entry points raise only what the framer raised; (e) for every write function code (5, 6, 15, 16, 22, 23) and ANY byte string after it: unless the body has exactly the length '
-            'its own count / byte-count fields prescribe (and those agree), decode + execute leaves all four tables unchanged (two known findings: trailing bytes ignored, FC 15 truncation); (f) the one request decoder with a while loop (FC 21) terminates on every byte string (loop variant).',
+            'its own count / byte-count fields prescribe (and those agree), decode + execute leaves all four tables unchanged (two known findings: trailing bytes ignored, FC 15 truncation); (f) the one request decoder with a while loop (FC 21) terminates on every byte string (loop variant); (g) a segment of at most 7 bytes at a Modbus/TCP receiver (real decoder, real execute) changes no cell.',
             'Reactor / event-loop behaviour around the proved callbacks is external (Twisted drops the connection on an exception leaving dataReceived). '
             'That a rejected PDU never reaches the store follows from execute being the framer callback, called only after decode returned a message (C07 gate units).',
             'contract-based deductive verification (pyvc VC generation from /repo AST + z3/cvc5)', 'DESIGN.md section 4 C12'),
@@ -102,7 +102,7 @@ CLAIMED = {
             'ownership / lock-invariant obligations (deductive, AST + call graph), part of the contract-based family', 'DESIGN.md section 4 C15'),
     'C17': ('proof', 'Relational: all seven front-ends are proved against the same S-SERVE contract (same frames, same executions for the same inputs), stream '
             'front-ends build a fresh framer per connection (proved on the real setup/connection_made/connectionMade), request execution has no suspension '
-            'point on the event-loop front-ends (ownership); threaded connections block without a receive timeout (a pause inside a frame is not an event on any front-end). Interleavings of several connections are NOT explored (not applicable to this family).',
+            'point on the event-loop front-ends (ownership); threaded connections block without a receive timeout (a pause inside a frame is not an event on any front-end); two framers built by the real constructors share no state (what one receives, checks, advances over or resets leaves the buffer and header of the other alone). Interleavings of several connections are NOT explored (not applicable to this family).',
             'Three known findings: Twisted UDP should_respond; threaded server executes requests without a lock (directed two-thread lost-update witness); '
             'datagram front-ends share one framer between peers.', 'contract-based deductive verification + ownership obligations', 'DESIGN.md section 4 C17'),
     'C20': ('proof', 'DeviceInformationFactory.get returns exactly the non-empty objects of the category from the requested id onward, ascending, with exact values '
@@ -115,7 +115,7 @@ CLAIMED = {
     'C16': ('proof', 'Contracts on the Twisted ModbusClientProtocol operations over the ghost map pending: tid -> deferred, each proved from an arbitrary pending map '
             '(0..3 other outstanding requests, symbolic pairwise-distinct ids, arbitrary tid counter): execute allocates (tid+1) mod 65536, writes the frame carrying '
             'it, files the returned deferred under it and touches nothing else; _handleResponse fires exactly pending[reply tid] once and removes it, an unknown id '
-            'fires nothing and leaves the framer (frames still buffered from the same segment) untouched; connectionLost fails every pending deferred once with a connection error and later requests fail at once; FIFO variant pairs in arrival order; the real constructor picks matching by transaction id exactly when the framer (given as class, instance or left out) is the MBAP one.',
+            'fires nothing and leaves the framer (frames still buffered from the same segment) untouched; connectionLost fails every pending deferred once with a connection error and later requests fail at once; FIFO variant pairs in arrival order; the real constructor picks matching by transaction id exactly when the framer (given as class, instance or left out) is the MBAP one; connectionLost is proved for the arrival-order (serial) manager too.',
             'Bounded in the NUMBER of other outstanding requests (<= 3; the untouched entries are symmetric). twisted Deferred / defer.fail / Failure are external '
             '(ghost firing log). One known finding (tid reuse after wrap while still pending).', 'contract-based deductive verification (pyvc VC generation from /repo AST + z3/cvc5)', 'DESIGN.md section 4 C16'),
     'C07': ('proof', 'Gate obligation per framer from an ARBITRARY framer state (any buffer, any header; the first loop iteration from an arbitrary state is the '
@@ -161,7 +161,7 @@ m = {
     'engines': [{'name': 'pyvc', 'path': 'pyvc/', 'serves_properties': sorted(CLAIMED),
                  'kind_free_text': 'AST->SMT verification-condition generator for the real /repo functions with sidecar contracts; z3 then cvc5; concrete replay and bounded twins under /venv/bin/python'}],
     'checks': [], 'not_applicable': [],
-    'notes': 'Exit codes: 0 held, 1 VIOLATION (replayed input, or no-failing-input-found against baseline-obligations.txt), 2 undecided without twin, 3 checker malfunction. Known findings: known-findings.txt (+ findings/). Seeded changes: seeded/. DESIGN.md section 10 describes the checks as built.',
+    'notes': 'Exit codes: 0 held, 1 VIOLATION (replayed input, or no-failing-input-found against baseline-obligations.txt), 2 undecided without twin, 3 checker malfunction (a clause proved by the engine that fails on the real code in the executable twin is a VIOLATION with that input, and the proof of that unit is withdrawn). Known findings: known-findings.txt (+ findings/). Seeded changes: seeded/ (100 property-breaking, 30 behaviour-preserving under seeded/benign). DESIGN.md section 10 describes the checks as built.',
 }
 for pid in ALL:
     if pid in CLAIMED:
